@@ -1,138 +1,33 @@
 import OutrankModel.Model.Wire
-import OutrankModel.Model.C07
-import OutrankModel.Model.C15
-import OutrankModel.Model.MI
+import OutrankModel.Drv.C07
+import OutrankModel.Drv.C15
+import OutrankModel.Drv.MI
+import OutrankModel.Drv.C14
 /-!
 Line-protocol driver (DESIGN §2.2): one request per line on stdin, one reply per line on stdout.
-Adds only parsing and printing around the definitions the theorems are about.
+Adds only parsing and printing around the definitions the theorems are about.  Each property contributes one
+`Wire.Handler` (in `OutrankModel/Drv/`); per-property state is a wire value, initially `.list []`.
 -/
 open Wire
 
-structure DState where
-  c07 : List (Nat × Nat) := []      -- C07: the global counter as an association list
+def handlers : List (String × Handler) := [
+  ("C07", C07.drv),
+  ("C15", C15Drv.drv),
+  ("MI", MIDrv.drv),
+  ("C14", C14Drv.drv)
+]
 
-def lookupCnt (t : List (Nat × Nat)) (k : Nat) : Nat := (t.lookup k).getD 0
-
-def pairsOf? (v : Val) : Option (List (Nat × Nat)) := do
-  let l ← v.list?
-  l.mapM fun p => do
-    let xs ← p.natList?
-    match xs with
-    | [a, b] => some (a, b)
-    | _ => none
-
-def bad (msg : String) : Val := .atom ("bad-op:" ++ msg)
-
-def handleC07 (st : DState) : List Val → DState × Val
-  | [.atom "reset"] => ({ st with c07 := [] }, .atom "ok")
-  | [.atom "call", cands, cap] =>
-    match cands.natList?, cap.nat? with
-    | some cs, some c =>
-      let cnt := lookupCnt st.c07
-      let (cnt', s) := C07.call cnt cs c
-      let keys := (st.c07.map (·.1) ++ cs).eraseDups
-      ({ st with c07 := keys.map fun k => (k, cnt' k) }, ofNatList s)
-    | _, _ => (st, bad "C07-call")
-  | [.atom "counts"] =>
-    let sorted := Srt.isort (fun a b => decide (a.1 ≤ b.1)) st.c07
-    (st, .list (sorted.map fun (k, c) => ofNatList [k, c]))
-  | [.atom "spec", pre, cands, cap, ret] =>
-    match pairsOf? pre, cands.natList?, cap.nat?, ret.natList? with
-    | some t, some cs, some c, some r => (st, ofBool (C07.callSpecB (lookupCnt t) cs c r))
-    | _, _, _, _ => (st, bad "C07-spec")
-  | [.atom "spread", tbl, l] =>
-    match pairsOf? tbl, l.natList? with
-    | some t, some ks => (st, ofBool (C07.spreadB (lookupCnt t) ks))
-    | _, _ => (st, bad "C07-spread")
-  | _ => (st, bad "C07")
-
-def matrixVal (M : List (List Int)) : Val := .list (M.map fun r => .list (r.map .int))
-def matrixOf? (v : Val) : Option (List (List Int)) := do
-  let l ← v.list?
-  l.mapM Val.intList?
-
-/-- C15: `cms d w ops locs` – ops = [[item, δ]…], locs[item] = column per row (from the real `cms_hash`) -/
-def handleC15 (st : DState) : List Val → DState × Val
-  | [.atom "cms", d, w, ops, locs] =>
-    match d.nat?, w.nat?, pairsOf? ops, (locs.list?.bind fun l => l.mapM Val.natList?) with
-    | some d, some w, some ops, some locs =>
-      let loc : Nat → Nat → Nat := fun x i => ((locs[x]?.getD [])[i]?).getD 0
-      let M := C15.run loc (C15.zeros d w) ops
-      let qs := (List.range locs.length).map fun x => match C15.query loc M x with
-        | some q => Val.int q
-        | none => Val.atom "none"
-      (st, .list [matrixVal M, .list qs])
-    | _, _, _, _ => (st, bad "C15-cms")
-  | [.atom "cmsspec", n, ops, M, qs] =>
-    match n.nat?, pairsOf? ops, matrixOf? M, qs.intList? with
-    | some n, some ops, some M, some qs => (st, ofBool (C15.cmsSpecB n ops M qs))
-    | _, _, _, _ => (st, bad "C15-cmsspec")
-  | [.atom "ctr", bound, vs] =>
-    match bound.nat?, vs.natList? with
-    | some b, some vs =>
-      let c := (C15.Ctr.empty : C15.Ctr Nat).run b vs
-      (st, .list (c.keys.map fun k => ofNatList [k, c.cnt k]))
-    | _, _ => (st, bad "C15-ctr")
-  | [.atom "ctrspec", bound, vs, res] =>
-    match bound.nat?, vs.natList?, pairsOf? res with
-    | some b, some vs, some r => (st, ofBool (C15.ctrSpecB b vs r))
-    | _, _, _ => (st, bad "C15-ctrspec")
-  | _ => (st, bad "C15")
-
-def memErrVal : MI.MemErr → Val
-  | .uninitRead i => .list [.atom "uninit-read", .int i]
-  | .outOfRange i v => .list [.atom "out-of-range", .int i, .int v]
-
-/-- MI family (C01–C04): the estimator model and the list-form specifications, at Float -/
-def handleMI (st : DState) : List Val → DState × Val
-  | [.atom "est", y, x, rn, rd, cc] =>
-    match y.natList?, x.natList?, rn.nat?, rd.nat? with
-    | some Y, some X, some rn, some rd =>
-      match MI.estimator MI.floatOps Y X rn rd (cc == .atom "true") with
-      | .ok v => (st, ofFloat v)
-      | .error e => (st, memErrVal e)
-    | _, _, _, _ => (st, bad "MI-est")
-  | [.atom "plugin", y, x] =>
-    match y.natList?, x.natList? with
-    | some Y, some X => (st, ofFloat (MI.pluginL MI.floatOps Y X))
-    | _, _ => (st, bad "MI-plugin")
-  | [.atom "entropy", y] =>
-    match y.natList? with
-    | some Y => (st, ofFloat (MI.entropyL MI.floatOps Y))
-    | _ => (st, bad "MI-entropy")
-  | [.atom "cond", y, x] =>
-    match y.natList?, x.natList? with
-    | some Y, some X => (st, ofFloat (MI.condEntropyL MI.floatOps Y X))
-    | _, _ => (st, bad "MI-cond")
-  | [.atom "corrected", y, x] =>
-    match y.natList?, x.natList? with
-    | some Y, some X => (st, ofFloat (MI.correctedSpecL MI.floatOps Y X))
-    | _, _ => (st, bad "MI-corrected")
-  | [.atom "rows", x, rn, rd] =>
-    match x.natList?, rn.nat?, rd.nat? with
-    | some X, some rn, some rd => (st, ofNatList (MI.sampledRows X rn rd))
-    | _, _, _ => (st, bad "MI-rows")
-  | [.atom "sample", y, x, rn, rd] =>
-    match y.natList?, x.natList?, rn.nat?, rd.nat? with
-    | some Y, some X, some rn, some rd =>
-      match MI.subsampleM (fun _ => 0) Y X rn rd with
-      | .ok (Ys, Xs) => (st, .list [ofNatList Ys, ofNatList Xs])
-      | .error e => (st, memErrVal e)
-    | _, _, _, _ => (st, bad "MI-sample")
-  | [.atom "oldsample", y, x, rn, rd, g] =>
-    match y.natList?, x.natList?, rn.nat?, rd.nat?, g.int? with
-    | some Y, some X, some rn, some rd, some g =>
-      match MI.oldSubsampleM (fun _ => g) Y X rn rd with
-      | .ok (Ys, Xs) => (st, .list [ofNatList Ys, ofNatList Xs])
-      | .error e => (st, memErrVal e)
-    | _, _, _, _, _ => (st, bad "MI-oldsample")
-  | _ => (st, bad "MI")
+abbrev DState := List (String × Val)
 
 def handle (st : DState) (line : String) : DState × Val :=
   match parseLine line.toList with
-  | some (.atom "C07" :: rest) => handleC07 st rest
-  | some (.atom "C15" :: rest) => handleC15 st rest
-  | some (.atom "MI" :: rest) => handleMI st rest
+  | some (.atom name :: rest) =>
+    match handlers.lookup name with
+    | some h =>
+      let cur := (st.lookup name).getD (.list [])
+      let (s', reply) := h cur rest
+      ((name, s') :: st.filter (·.1 != name), reply)
+    | none => (st, bad "unknown-property")
   | some _ => (st, bad "unknown-property")
   | none => (st, bad "parse")
 
@@ -146,5 +41,5 @@ partial def loop (h : IO.FS.Stream) (out : IO.FS.Stream) (st : DState) : IO Unit
 def main : IO Unit := do
   let stdin ← IO.getStdin
   let stdout ← IO.getStdout
-  loop stdin stdout {}
+  loop stdin stdout []
   stdout.flush
